@@ -88,6 +88,51 @@ Proof.
     + rewrite !(da_out _ _ _ _ _ _ D2) by lia. apply A. lia.
 Qed.
 
+(** a block whose assertion pins further variables lo+1..mid by equations
+    [s v = e1 s v] (the state variables of [Cross], asserted through Iff's):
+    they join the defined variables *)
+Lemma definesA_absorb lo mid hi cls reqs e1 e2 (P1 P2 : asg -> Prop) :
+  0 <= lo <= mid ->
+  (forall s v, ~ (lo < v <= mid) -> e1 s v = s v) ->
+  (forall s t, agree_upto lo s t -> forall v, lo < v <= mid -> e1 s v = e1 t v) ->
+  DefinesA mid hi cls reqs e2 P2 ->
+  (forall s, P2 s <-> (forall v, lo < v <= mid -> s v = e1 s v) /\ P1 s) ->
+  DefinesA lo hi cls reqs (fun s => e2 (e1 s)) P1.
+Proof.
+  intros R1 O1 L1 D2 HP. pose proof (da_range _ _ _ _ _ _ D2) as R2.
+  constructor.
+  - lia.
+  - apply (da_vars _ _ _ _ _ _ D2).
+  - apply (da_reqs _ _ _ _ _ _ D2).
+  - intros s. rewrite (da_sem _ _ _ _ _ _ D2), HP. split.
+    + intros [H2 [H1 Q1]]. split; [|exact Q1]. intros v Hv.
+      assert (A : agree_upto mid s (e1 s)).
+      { intros w Hw. destruct (Z_lt_le_dec lo w).
+        - apply H1. lia.
+        - symmetry. apply O1. lia. }
+      destruct (Z_lt_le_dec mid v) as [Hm|Hm].
+      * rewrite H2 by lia. apply (da_local _ _ _ _ _ _ D2); [assumption|lia].
+      * rewrite (da_out _ _ _ _ _ _ D2) by lia. apply H1. lia.
+    + intros [H Q1].
+      assert (H1 : forall v, lo < v <= mid -> s v = e1 s v).
+      { intros v Hv. rewrite H by lia. apply (da_out _ _ _ _ _ _ D2). lia. }
+      assert (A : agree_upto mid s (e1 s)).
+      { intros w Hw. destruct (Z_lt_le_dec lo w).
+        - apply H1. lia.
+        - symmetry. apply O1. lia. }
+      split; [|now split]. intros v Hv. rewrite H by lia. symmetry.
+      apply (da_local _ _ _ _ _ _ D2); [assumption|lia].
+  - intros s v Hv. rewrite (da_out _ _ _ _ _ _ D2) by lia. apply O1. lia.
+  - intros s t Hst v Hv.
+    assert (A : agree_upto mid (e1 s) (e1 t)).
+    { intros w Hw. destruct (Z_lt_le_dec lo w).
+      - apply L1; [assumption|lia].
+      - rewrite !O1 by lia. apply Hst. lia. }
+    destruct (Z_lt_le_dec mid v) as [Hm|Hm].
+    + apply (da_local _ _ _ _ _ _ D2); [assumption|lia].
+    + rewrite !(da_out _ _ _ _ _ _ D2) by lia. apply A. lia.
+Qed.
+
 Lemma definesA_conseq lo hi cls reqs ext (P Q : asg -> Prop) :
   DefinesA lo hi cls reqs ext P -> (forall s, P s <-> Q s) -> DefinesA lo hi cls reqs ext Q.
 Proof.
@@ -191,19 +236,20 @@ Qed.
 Section Fold.
 Variable fb : flat.
 Variable Pc : fconstraint -> asg -> Prop.
+Variable G : Z.   (* the trial variables are 1..G; fresh starts at G+1 *)
 
 Definition step_ok (c : fconstraint) : Prop :=
-  forall fresh ct, 1 <= fresh -> apply_constraint fb c fresh = COk ct ->
+  forall fresh ct, G < fresh -> apply_constraint fb c fresh = COk ct ->
     exists ext, DefinesA (fresh - 1) (ct_fresh ct - 1) (ct_clauses ct) (ct_requests ct) ext (Pc c).
 
-Lemma apply_all_block cs : forall b0 b lo e0 P0,
+Lemma apply_all_block cs : forall b0 b e0 P0,
   Forall step_ok cs ->
-  DefinesA lo (b_fresh b0 - 1) (b_clauses b0) (b_requests b0) e0 P0 ->
+  DefinesA G (b_fresh b0 - 1) (b_clauses b0) (b_requests b0) e0 P0 ->
   apply_all fb cs b0 = COk b ->
-  exists ext, DefinesA lo (b_fresh b - 1) (b_clauses b) (b_requests b) ext
+  exists ext, DefinesA G (b_fresh b - 1) (b_clauses b) (b_requests b) ext
                        (fun s => P0 s /\ Forall (fun c => Pc c s) cs).
 Proof.
-  induction cs as [|c cs IH]; intros b0 b lo e0 P0 Hs D0 E.
+  induction cs as [|c cs IH]; intros b0 b e0 P0 Hs D0 E.
   - cbn [apply_all] in E. inversion E. subst b. exists e0.
     apply (definesA_conseq _ _ _ _ _ P0); [exact D0|]. intros s. split; [intros H; split; [exact H|constructor]|tauto].
   - cbn [apply_all] in E. inversion Hs as [|? ? Hc Hcs]; subst.
@@ -212,23 +258,23 @@ Proof.
     destruct (Hc (b_fresh b0) ct ltac:(lia) Ec) as (e1 & D1).
     pose proof (definesA_seq _ _ _ _ _ _ _ _ _ _ _ D0 D1) as D01.
     destruct (IH {| b_fresh := ct_fresh ct; b_clauses := b_clauses b0 ++ ct_clauses ct;
-                     b_requests := b_requests b0 ++ ct_requests ct |} b lo _ _ Hcs D01 E) as (ext & D).
+                     b_requests := b_requests b0 ++ ct_requests ct |} b _ _ Hcs D01 E) as (ext & D).
     exists ext. apply (definesA_conseq _ _ _ _ _ _ _ D). intros s. split.
     + intros [[A B] C]. split; [exact A|]. now constructor.
     + intros [A F]. inversion F; subst. tauto.
 Qed.
 
 Theorem compile_block b :
+  G = zn (Layout.variables_per_sample fb) ->
   Forall step_ok (fl_constraints fb) ->
   compile fb = COk b ->
-  exists ext, DefinesA (zn (Layout.variables_per_sample fb)) (b_fresh b - 1) (b_clauses b) (b_requests b) ext
+  exists ext, DefinesA G (b_fresh b - 1) (b_clauses b) (b_requests b) ext
                        (fun s => Forall (fun c => Pc c s) (fl_constraints fb)).
 Proof.
-  intros Hs E. unfold compile in E.
-  set (G := zn (Layout.variables_per_sample fb)) in *.
-  assert (HG : 0 <= G) by (unfold G, zn; lia).
+  intros EG Hs E. unfold compile in E. rewrite <- EG in E.
+  assert (HG : 0 <= G) by (rewrite EG; unfold zn; lia).
   destruct (apply_all_block (fl_constraints fb) {| b_fresh := 1 + G; b_clauses := []; b_requests := [] |}
-                            b G (fun s => s) (fun _ => True) Hs) as (ext & D).
+                            b (fun s => s) (fun _ => True) Hs) as (ext & D).
   - cbn [b_fresh b_clauses b_requests]. replace (1 + G - 1) with G by lia. now apply definesA_nil.
   - exact E.
   - exists ext. apply (definesA_conseq _ _ _ _ _ _ _ D). intros s. tauto.
